@@ -95,6 +95,30 @@ func decodeShapes(tier string) []decShape {
 			}
 		}
 	}
+	// Family S3: two shaped sequences over a dictionary: the first match may start in the
+	// dictionary and run into the block (both memmove sites of the straddling copy), the second
+	// sequence then starts 17..40 bytes before the end of dst with enough source left for the
+	// wide-copy shortcut.
+	for _, l1 := range []int{0, 1} {
+		for _, l2 := range []int{0, 1, 12, 14} {
+			for _, t := range []int{0, 3, 17} {
+				if l2 < 12 && t < 17 {
+					continue // the wide-copy shortcut needs 17 source bytes after the token
+				}
+				L := l1 + l2 + t
+				nds := []int{L + 8, L + 23}
+				if thorough {
+					nds = []int{L + 4, L + 8, L + 12, L + 23, L + 40}
+				}
+				for _, nd := range nds {
+					add(decShape{0, l1, 0, l2, 0, t, 0, nd, 3, 0, 8, 14})
+					if thorough {
+						add(decShape{0, l1, 0, l2, 0, t, 0, nd, 1, 0, 8, 14})
+					}
+				}
+			}
+		}
+	}
 	// Truncations of shaped blocks (every cut 1..6 of a few shapes).
 	for _, l1 := range []int{0, 14, 15, 17} {
 		for cut := 1; cut <= 6; cut++ {
@@ -133,7 +157,7 @@ func decodeBounds(tier string) []string {
 	return []string{
 		capb,
 		fmt.Sprintf("family A: every source of 0..%d arbitrary bytes x every destination length 0..%d (prior contents and %d bytes of spare capacity arbitrary) x dictionary of 0/1/3 arbitrary bytes; nil destination", Ns, Nd, 24),
-		"family S: shaped blocks = [sequence with l1 in {0,1,13,14,15,16,17,30,48,49} literal bytes, symbolic 16-bit offset, symbolic match nibble or 15+one extension byte] [optional second sequence] [optional literals-only run of t bytes] minus 0..6 truncated bytes; destination lengths around the decoded size (+4,+5,+18,+19,+32,+33,...); every field value and literal byte symbolic",
+		"family S: shaped blocks = [sequence with l1 in {0,1,13,14,15,16,17,30,48,49} literal bytes, symbolic 16-bit offset, symbolic match nibble or 15+one extension byte] [optional second sequence] [optional literals-only run of t bytes] minus 0..6 truncated bytes; two-sequence blocks also over a 3-byte dictionary (first match starting in the dictionary and running into the block; matches <= 8 bytes, offsets <= 14 or reaching the dictionary); destination lengths around the decoded size (+4,+5,+18,+19,+32,+33,...); every field value and literal byte symbolic",
 		fmt.Sprintf("%d jobs per decoder build; both builds (amd64 assembly via asmsym, portable Go via gosym)", len(decodeShapes(tier))),
 	}
 }
